@@ -219,6 +219,7 @@ def check_sup_and_wiring(project: Project, rep):
                 rep.refuted("NM-WIRE", pn, n, f"{kind}: _p_norm is called with p={pv}, critical_pairs={cv} (expected p, {want})")
             else:
                 rep.unmodelled("NM-WIRE", pn, n, f"{kind}: arguments of _p_norm not recognised (p={pv}, critical_pairs={cv})")
+    check_lazy_reads(project, rep)
     base = project.function("persim.landscapes.base.PersLandscape.p_norm")
     rep.analysed(base)
     txt = ast.unparse(base.node)
@@ -234,6 +235,90 @@ def check_sup_and_wiring(project: Project, rep):
         rep.discharged("NM-SUP", base, sup_if[0], "p == -1 is routed to sup_norm", nontrivial=False)
     else:
         rep.refuted("NM-SUP", base, b, "p == -1 is not routed to the sup-norm")
+
+
+def _must_compute(project, fi, cls, memo):
+    """every normal path through `fi` runs self.compute_landscape() — directly or through a method of self / super() that
+    always does (must-call summary over the class's methods, resolved through the MRO)"""
+    key = fi.qualname
+    if key in memo:
+        return memo[key]
+    memo[key] = False  # recursion guard
+    from ..core.cfg import CFG
+    cfg = CFG(fi.node)
+    gates = _compute_gates(project, fi, cls, cfg, memo)
+    memo[key] = cfg.must_pass_through(cfg.entry.id, cfg.exit.id, gates)
+    return memo[key]
+
+
+def _compute_gates(project, fi, cls, cfg, memo):
+    gates = set()
+    for nd in cfg.nodes:
+        a = nd.ast
+        if a is None or nd.kind not in ("stmt", "return", "test"):
+            continue
+        roots = [a.test] if nd.kind == "test" and hasattr(a, "test") else [a]
+        for r in roots:
+            for c in ast.walk(r):
+                if not (isinstance(c, ast.Call) and isinstance(c.func, ast.Attribute)):
+                    continue
+                recv, name = c.func.value, c.func.attr
+                is_self = isinstance(recv, ast.Name) and recv.id == "self"
+                is_super = isinstance(recv, ast.Call) and isinstance(recv.func, ast.Name) and recv.func.id == "super"
+                if not (is_self or is_super):
+                    continue
+                if name == "compute_landscape":
+                    gates.add(nd.id)
+                    continue
+                owner = project.classes.get(fi.cls.qualname if getattr(fi, "cls", None) else cls.qualname) or cls
+                m = owner.lookup_super(name, project) if is_super else cls.lookup(name, project)
+                if m is not None and m.qualname != fi.qualname and _must_compute(project, m, cls, memo):
+                    gates.add(nd.id)
+    return gates
+
+
+def check_lazy_reads(project: Project, rep):
+    """NM-LAZY: in p_norm / sup_norm of both classes (and what they inherit), every read of the lazily computed data
+    (self.critical_pairs / self.values) lies behind a call that always computes the landscape, on every path"""
+    from ..core.cfg import CFG
+    for kind, cq, attr in (("exact", "persim.landscapes.exact.PersLandscapeExact", "critical_pairs"),
+                           ("grid", "persim.landscapes.approximate.PersLandscapeApprox", "values")):
+        cls = project.classes.get(cq)
+        if cls is None:
+            rep.unmodelled("NM-LAZY", None, None, f"{cq} not found")
+            continue
+        for mname in ("p_norm", "sup_norm"):
+            m = cls.lookup(mname, project)
+            if m is None:
+                continue
+            memo = {}
+            cfg = CFG(m.node)
+            gates = _compute_gates(project, m, cls, cfg, memo)
+            reads = []
+            for nd in cfg.nodes:
+                a = nd.ast
+                if a is None or nd.kind not in ("stmt", "return", "test", "for"):
+                    continue
+                roots = [a.test] if nd.kind == "test" and hasattr(a, "test") else ([a.iter] if nd.kind == "for" else [a])
+                for r in roots:
+                    for x in ast.walk(r):
+                        if isinstance(x, ast.Attribute) and x.attr == attr and isinstance(x.value, ast.Name) and x.value.id == "self" \
+                                and isinstance(x.ctx, ast.Load):
+                            reads.append((nd, x))
+            if not reads:
+                rep.discharged("NM-LAZY", m, m.node, f"{kind}.{mname}: does not read self.{attr} itself", nontrivial=False)
+                continue
+            bad = [(nd, x) for nd, x in reads if nd.id not in gates and not cfg.must_pass_through(cfg.entry.id, nd.id, gates)]
+            if bad:
+                nd, x = bad[0]
+                rep.refuted("NM-LAZY", m, nd.ast,
+                            f"{kind}.{mname} reads self.{attr} on a path on which the landscape has not been computed (no call that "
+                            f"always runs compute_landscape() lies before it): a landscape built with compute=False has norm 0 until "
+                            f"something else triggers the computation",
+                            construct=f"{m.qualname}: read of self.{attr} before compute_landscape")
+            else:
+                rep.discharged("NM-LAZY", m, reads[0][0].ast, f"{kind}.{mname}: every read of self.{attr} lies behind a call that "
+                                                              f"always computes the landscape")
 
 
 def run(project: Project, rep, tier: str):
